@@ -386,6 +386,11 @@ def describe(body, op, depth=0, names=False):
             return "K%d" % v
         if "fn" in k:
             return "fn:" + k["fn"]
+        if k.get("generic") or k.get("promoted"):
+            from .facts import promoted_int
+            pv = promoted_int(body, k)
+            if pv is not None:
+                return "K%d" % pv
         if k.get("from"):
             return "const:" + k["from"].replace("preflate_rs::", "")
         return "const<%s>" % k["ty"]
